@@ -77,4 +77,92 @@ inductive BoundKind where
 
 def bound {γ : Type} (_kind : BoundKind) (individuals : γ) : γ := individuals
 
+/-! ### histories: a decorated function re-parameterised through its setter
+
+`evaluate = translate(v0)(f)`, then any interleaving of `evaluate.translate(v)` and `evaluate(x)`
+(likewise `rotate`, `scale`, and the three of them stacked).  The decorator object holds ONE current
+parameter; a setter call replaces it (`tools.py:51-63, 101-117, 200-214`), whatever object the caller
+passes — a new one, the one passed before, or the one passed before with new contents — and every
+evaluation uses the parameter installed last. -/
+
+inductive HOp (P X : Type) where
+  | set (p : P)
+  | call (x : X)
+
+/-- `install p` = what the setter stores for the argument `p` (`none`: the setter raises, e.g. a zero
+scale factor); `apply s x` = what the wrapped function receives under the stored parameter `s`.
+Returns the list handed to the wrapped function by every call, in order. -/
+def runHist {P S X Y : Type} (install : P → Option S) (apply : S → X → Option Y) :
+    S → List (HOp P X) → Option (List Y)
+  | _, [] => some []
+  | _, .set p :: ops =>
+    match install p with
+    | none => none
+    | some s' => runHist install apply s' ops
+  | s, .call x :: ops =>
+    match apply s x with
+    | none => none
+    | some y =>
+      match runHist install apply s ops with
+      | none => none
+      | some ys => some (y :: ys)
+
+/-- the stored parameter after a history -/
+def stateAfter {P S X : Type} (install : P → Option S) : S → List (HOp P X) → Option S
+  | s, [] => some s
+  | _, .set p :: ops =>
+    match install p with
+    | none => none
+    | some s' => stateAfter install s' ops
+  | s, .call _ :: ops => stateAfter install s ops
+
+def translateHist (v0 : List α) (ops : List (HOp (List α) (List α))) : Option (List (List α)) :=
+  runHist some (fun v x => some (translateArg v x)) v0 ops
+
+/-- the stored parameter is the tuple of reciprocals -/
+def scaleHist (f0 : List α) (ops : List (HOp (List α) (List α))) : Option (List (List α)) :=
+  match scaleFactor f0 with
+  | none => none
+  | some r0 => runHist scaleFactor (fun r x => some ((x.zip r).map fun p => p.1 * p.2)) r0 ops
+
+/-- the stored parameter is `inv matrix` -/
+def rotateHist (inv : List (List α) → List (List α)) (R0 : List (List α))
+    (ops : List (HOp (List (List α)) (List α))) : Option (List (List α)) :=
+  runHist (fun R => some (inv R)) matVec (inv R0) ops
+
+/-- setters of the stack `@translate @rotate @scale` -/
+inductive StackParam (α : Type) where
+  | t (v : List α)
+  | r (R : List (List α))
+  | s (f : List α)
+
+structure StackState (α : Type) where
+  vector : List α
+  minv : List (List α)
+  recip : List α
+
+def stackInstall (inv : List (List α) → List (List α)) (st : StackState α) : StackParam α → Option (StackState α)
+  | .t v => some { st with vector := v }
+  | .r R => some { st with minv := inv R }
+  | .s f => (scaleFactor f).map fun r => { st with recip := r }
+
+def stackApply (st : StackState α) (x : List α) : Option (List α) :=
+  (matVec st.minv (translateArg st.vector x)).map fun y => (y.zip st.recip).map fun p => p.1 * p.2
+
+/-- histories on the stacked function: every setter changes its own decorator's parameter only -/
+def stackHist (inv : List (List α) → List (List α)) : StackState α → List (HOp (StackParam α) (List α)) →
+    Option (List (List α))
+  | _, [] => some []
+  | st, .set p :: ops =>
+    match stackInstall inv st p with
+    | none => none
+    | some st' => stackHist inv st' ops
+  | st, .call x :: ops =>
+    match stackApply st x with
+    | none => none
+    | some y =>
+      match stackHist inv st ops with
+      | none => none
+      | some ys => some (y :: ys)
+
 end BenchTools
